@@ -24,6 +24,13 @@ def make_case(args):
     rng = random.Random((seed << 20) ^ idx)
     g = gen_core.Gen(rng, max_depth=rng.choice([2, 3, 4, 5]))
     stmts = g.program(rng.randint(6, 16))
+    big_pool = rng.random() < 0.12
+    if big_pool:
+        # more than 256 distinct constants ahead of the program: every later literal is loaded with the long
+        # constant instruction and every jump of the program crosses such loads
+        n_pad = rng.choice([250, 255, 256, 257, 300])
+        stmts = [lyast.Let('zz__', lyast.Call(lyast.Prop(lyast.ListLit([lyast.Num(100000 + i) for i in range(n_pad)]),
+                                                         'len'), []))] + stmts
     variants = []
     pos_list = ['module'] + rng.sample(POSITIONS[1:], 2)
     base = None
@@ -59,7 +66,8 @@ def make_case(args):
     shape = hashlib.sha1(lyast.to_source(stmts).encode()).hexdigest()[:16]
     return {'idx': idx, 'mism': mism, 'evals': n_eval, 'shape': shape,
             'nontrivial': base['steps'] > 30 and len(base['out']) > 0,
-            'sample': lyast.to_source(stmts)[:600], 'out_lines': len(base['out']),
+            'sample': lyast.to_source(stmts)[:600] if not big_pool else '(big constant pool) ' + lyast.to_source(stmts[1:])[:500],
+            'big_pool': big_pool, 'out_lines': len(base['out']),
             'outcome': base['outcome'], 'ops': ops, 'unwinds': base['unwinds']}
 
 
@@ -70,7 +78,7 @@ def main():
         tier = sys.argv[sys.argv.index('--tier') + 1]
     n = int(os.environ.get('VERIF_N', '0')) or (800 if tier == 'quick' else 40000)
     chk = vlib.Check(PROP, tier)
-    chk.rule = ('random core-grammar programs (gen_core, depth 2-5); each AST printed in 3 positions '
+    chk.rule = ('random core-grammar programs (gen_core, depth 2-5; one in eight behind a pool of 250-300 constants so that literals use the long constant instruction); each AST printed in 3 positions '
                 '(module + 2 of fn/method/lambda/fn with args) x canonical and wild layouts, every text run on '
                 'dbg (+stack monitor) and rel and compared with the reference model; distinct = distinct AST text, '
                 'non-trivial = model executed > 30 steps and printed at least one line')
@@ -92,6 +100,8 @@ def main():
         if r['nontrivial']:
             chk.distinct.add(r['shape'])
         chk.count('programs')
+        if r.get('big_pool'):
+            chk.count('programs_with_more_than_256_constants')
         chk.count('outcome ' + r['outcome'])
         chk.count('stdout_lines', r['out_lines'])
         chk.count('unwinds_in_model', r['unwinds'])
